@@ -133,12 +133,14 @@ pub mod math {
 
     #[cfg(feature = "std")]
     #[inline]
+    #[allow(dead_code)]
     pub fn round(x: f64) -> f64 {
         x.round()
     }
 
     #[cfg(not(feature = "std"))]
     #[inline]
+    #[allow(dead_code)]
     pub fn round(x: f64) -> f64 {
         libm::round(x)
     }
